@@ -96,6 +96,15 @@ def monitors (c : Spec.Ctx) (j : Journal) (fatalHere : Bool) : List String :=
   ((Spec.C06.upRemovalBad c j).map (fun t => "C06|" ++ t)) ++
   (if Spec.C01.holds c j then [] else ["C01|" ++ ";".intercalate (Spec.C01.bad c j)]) ++
   (if Spec.C03.holds c j then [] else ["C03|taints added although fewer than min_nodes untainted nodes remain (or while below the minimum)"]) ++
+  -- a fleet request made for a group names subnets of that group's own cloud group, and instance types from its own configuration
+  (let foreign := j.filterMap (fun e => match e.call with
+      | .createFleet r =>
+        let zones := (c.g.asg.vpcZones.splitOn ",").map (fun z => z.trimAscii.toString)
+        let bad := r.overrides.filter (fun ov => !zones.contains ov.subnet ||
+          (match ov.instanceType with | some t => !c.cfg.aws.instanceTypeOverrides.contains t | none => !c.cfg.aws.instanceTypeOverrides.isEmpty))
+        if bad.isEmpty then none else some (toString (bad.map (fun ov => ov.subnet ++ "/" ++ ov.instanceType.getD "-")))
+      | _ => none)
+   if foreign.isEmpty then [] else ["C12|a fleet request of this group carries subnets or instance types that are not its own: " ++ ";".intercalate foreign]) ++
   (if Spec.C12.holds c j then [] else ["C12|" ++ ";".intercalate ((j.filter (fun e => !Spec.C12.okEntry c e)).map (fun e => (toJson e.call).compress))]) ++
   (if Spec.C08.holds c j then [] else ["C08|a node never attempted stays untainted although strictly older than a node tainted in this scan; tainted: " ++ toString (Spec.taintedNames c.view j)]) ++
   (if Spec.C04.holds c j then [] else ["C04|a resize request takes the target above min(max_nodes, cloud max), counted from the desired size at that moment"]) ++
@@ -239,7 +248,23 @@ def handleScan (ds : DState) (sc : ScanCase) : DState × Json :=
       match ds.armed.lookup ob.name, ds.ctl.cfgs.find? (fun c => c.name == ob.name) with
       | some t0, some c => if sc.nowReal - t0 < c.coolNs && !ob.j.isEmpty then ["C02:" ++ ob.name ++ ":activity-in-cooldown"] else []
       | _, _ => [])
-    let mons := mons ++ mon02
+    let mon02b : List String := sc.obs.recs.flatMap (fun ob =>
+      match ds.ctl.cfgs.find? (fun c => c.name == ob.name) with
+      | some c =>
+        if ds.ctl.globalDry || c.dryMode then [] else
+        -- everything after the entry that got the increase accepted (SetDesiredCapacity, or the last attach of a fleet)
+        let idx? := (ob.j.zipIdx.filter (fun (e, _) => e.ok && (match e.call with | .setDesired .. => true | .attach .. => true | _ => false))).getLast?.map (·.2)
+        match idx? with
+        | some i =>
+          if acceptedRaise ob.j then
+            let later := (ob.j.drop (i + 1)).filter (fun e => Spec.isWrite e)
+            if later.isEmpty then [] else
+              ["C02:" ++ ob.name ++ ":changes to the group after the cloud accepted its scale-up, in the same scan: " ++
+                ";".intercalate (later.map (fun e => ((toJson e.call).compress.take 80).toString))]
+          else []
+        | none => []
+      | none => [])
+    let mons := mons ++ mon02 ++ mon02b
     -- C20 on the observed outcome
     let mon20 : List String :=
       if sc.obs.outcome.startsWith "panic:" then ["C20:panic:" ++ sc.obs.outcome]
@@ -299,7 +324,9 @@ def handleScan (ds : DState) (sc : ScanCase) : DState × Json :=
         if ol.pods == wantP && ol.nodes == wantN then [] else
           let d := "group " ++ ol.name ++ " lists pods " ++ toString extraP ++ " it must not and misses " ++ toString missP ++
                    "; nodes extra " ++ toString extraN ++ " missing " ++ toString missN
-          ["C14:attribution:" ++ d, "C12:attribution:" ++ d])
+          ["C14:attribution:" ++ d, "C12:attribution:" ++ d] ++
+          -- nodes listed for a group that the cluster-wide listing of this scan does not attribute to it enter its capacity
+          (if extraN.isEmpty then [] else ["C13:capacity-over-nodes-not-listed-for-the-group:" ++ d]))
     -- C14/C12 on the calls themselves: a node named in a call made while processing a group carries that group's label
     -- (judged on the cluster-wide listing of this scan, whatever the group's own lister returned or failed to return)
     let monTouch : List String := sc.obs.recs.flatMap (fun ob =>
